@@ -6,7 +6,7 @@ setup:
 
 # refresh baseline, evidence (from /repo itself) and MANIFEST before committing
 refresh:
-	./check all --update-baseline
+	./check all --tier thorough --update-baseline
 	-./check all
 	python3 lib/mkmanifest.py
 .PHONY: refresh
